@@ -15,6 +15,7 @@ import (
 	"strconv"
 	"strings"
 	"sync"
+	"sync/atomic"
 
 	"github.com/gorilla/websocket"
 	"verif/harness/lib/evid"
@@ -182,7 +183,18 @@ func openWS(t evid.TB, s *srv.Server, pl *plan, path string, exp *expectation, s
 	x.sc = newScanner(p, 0, sentinel)
 	do := func(method, url, extra string) *rtspc.Response {
 		id, err := x.request(method, url, extra, "")
-		if err != nil || !waitFor(ioBound, func() bool { return x.answered(id) || x.broken() }) || x.broken() {
+		if err == nil {
+			waitFor(bound(), func() bool { return x.answered(id) || x.broken() })
+		}
+		if o := x.sc.result(); o.Err != nil {
+			// the play dialogue itself is server output under the same grammar
+			if _, ok := o.Err.(*rtspc.FramingError); ok {
+				p.ws.Close()
+				atomic.StoreInt32(&sawViolation, 1)
+				evid.Violation(t, "ws-grammar", map[string]any{"plan": pl, "during": method + " of the play dialogue"}, "ws (grammar): answering %s of the play dialogue: %v", method, o.Err)
+			}
+		}
+		if err != nil || !x.answered(id) {
 			p.ws.Close()
 			t.Fatalf("machinery: ws %s before the case: %v %v", method, err, x.sc.result().Err)
 		}
